@@ -25,7 +25,8 @@ RULE = (
     "non-roots; non-trivial = tree with >= 3 nodes; distinct = distinct (tree fingerprint, predicate sets / xpath text)"
 )
 ASSUMPTIONS = ["predicates are pure functions of the offered node"]
-MUST_SEE = ["children_lists_mutated_by_caller", "falsy_callable_predicates", "abandoned_traversals", "xpath_after_class_redefinition", "skip_self_with_prune", "start_pruned", "prune_not_filter_with_desc", "list_fields", "index_ge_10_match", "xpath_nonempty", "malformed_rejected", "calculate_xpath_nodes", "gather_calls", "two_anywhere_left_steps", "recalculated_after_change"]
+REUSED_XPATHS: dict = {}
+MUST_SEE = ["compiled_xpath_reused_on_another_tree", "children_lists_mutated_by_caller", "falsy_callable_predicates", "abandoned_traversals", "xpath_after_class_redefinition", "skip_self_with_prune", "start_pruned", "prune_not_filter_with_desc", "list_fields", "index_ge_10_match", "xpath_nonempty", "malformed_rejected", "calculate_xpath_nodes", "gather_calls", "two_anywhere_left_steps", "recalculated_after_change"]
 CONFIG = {
     "quick": {"shards": 16, "small_trees": 200, "exh_n": 4, "large_trees": 60, "xpaths": 40, "watchdog_s": 600},
     "thorough": {"shards": 32, "small_trees": 300, "exh_n": 6, "large_trees": 150, "xpaths": 100, "watchdog_s": 3400},
@@ -249,6 +250,8 @@ def run_shard(ctx):
             except Exception as e:  # noqa: BLE001
                 bad("legacy-xpath-compile", f"grammar-derived xpath rejected: {type(e).__name__}: {e}"[:200], xpath=text)
                 continue
+            if len(REUSED_XPATHS) < 25 and exp and text not in REUSED_XPATHS:
+                REUSED_XPATHS[text] = (path, xp)
             got_ids = sorted(id(o) for o in nodes if xp.match(o))
             if got_ids != exp_ids:
                 bad("legacy-xpath-match", "legacy ASTXpath.match differs from the documented semantics", xpath=text, ast=path, match=[idx_of[i] for i in got_ids], expected=[idx_of[i] for i in exp_ids])
@@ -260,6 +263,15 @@ def run_shard(ctx):
                 anyw = [i for i, st in enumerate(path) if st[0]]
                 if anyw and max(anyw) >= 2:
                     ctx.count("two_anywhere_left_steps")
+        # compiled xpath objects kept from earlier trees are asked about this tree too (ids recur between trees)
+        for text, (path, xp) in list(REUSED_XPATHS.items())[:25]:
+            exp_ids = sorted(id(obj[id(p)]) for p in RX.ref_eval(path, root_pos, kids_of, lambda p: obj[id(p)], classes))
+            ctx.evaluations += 1
+            ctx.count("compiled_xpath_reused_on_another_tree")
+            got_ids = sorted(id(o) for o in nodes if xp.match(o))
+            if got_ids != exp_ids:
+                bad("legacy-xpath-match", "a compiled legacy ASTXpath used before on other trees differs from the documented semantics on this one", xpath=text, ast=path, match=[idx_of[i] for i in got_ids], expected=[idx_of[i] for i in exp_ids])
+                break
         # malformed texts
         for text in ("", "/", "//", f"/{P}Leaf[", f"/@/{P}Leaf", "/NoSuchClass", "/CodeOrigin", f"{P}Leaf/", f"/{P}Leaf/@", "[1]", f"/{P}Leaf]", "/ASTNode", f"/({P}Leaf)", f"/{P}Leaf/[x]{P}Leaf"):
             ctx.evaluations += 1
